@@ -139,7 +139,7 @@ def own_chunk_cases(out, n):
 
 def run(out, drv, info):
     quick = out.tier == 'quick'
-    n_hist, n_ops = (120, 12) if quick else (1300, 30)
+    n_hist, n_ops = (120, 12) if quick else (1000, 30)
     out.rule = ('history cases as in C02 (own seed label); non-trivial = a successful delete or clean in a state with ≥ 1 orphaned chunk or ≥ 1 object of another key family; '
                 'format cases = (name, tag) from hex strings of length 0–128 and strings with - / and non-hex characters, both location kinds, plus malformed locations '
                 '(missing / shifted prefix, random - and /); non-trivial = non-empty hex name and hex tag of the stated minimum length; distinct = hash of the case')
@@ -152,6 +152,10 @@ def run(out, drv, info):
 
 
 def replay(path, drv):
+    return X.hard_exit(_replay(path, drv))
+
+
+def _replay(path, drv):
     d = json.load(open(path))
     rp = d.get('replay', d)
     if rp.get('kind') == 'history':
